@@ -72,6 +72,7 @@ class World:
         self.max_inflight = 0
         self.actor_starts = 0
         self.stale_deps = []
+        self.kept_handles = []
 
     async def open(self):
         if self.magic:
@@ -134,6 +135,8 @@ class World:
                     break
             if last is not None and (last.get("params") or {}).get("tried") not in (None, attempt):
                 world.stale_deps.append({"id": id_, "delivered_tried": last["params"]["tried"], "dependency_tried": attempt})
+            if st.get("keep_handle") or script.get("keep_handle"):
+                world.kept_handles.append(m)  # user code that holds on to the handle (a report list, a closure, a traceback)
             world.inflight += 1
             world.actor_starts += 1
             world.max_inflight = max(world.max_inflight, world.inflight)
